@@ -359,6 +359,18 @@ def _eval_const(expr: str, env: dict):
     return result
 
 
+# Python built-ins without a device-side translation (user functions of the same
+# name are still allowed).
+_UNTRANSLATED_BUILTINS = {
+    "all", "any", "ascii", "bin", "bytearray", "bytes", "callable", "chr", "dict",
+    "dir", "divmod", "enumerate", "eval", "exec", "filter", "format", "frozenset",
+    "getattr", "globals", "hasattr", "hash", "hex", "id", "input", "isinstance",
+    "issubclass", "iter", "list", "locals", "next", "oct", "open", "ord", "range",
+    "repr", "reversed", "set", "setattr", "slice", "sorted", "sum", "tuple", "type",
+    "vars", "zip",
+}
+
+
 def _binop_c_expr(op_type: type, left: str, right: str) -> str:
     """C++ text for a Python binary operation on already emitted operands.
 
@@ -892,6 +904,14 @@ def _to_c_expr(
                 return _fold([emit(arg) for arg in n.args])
             if n.keywords:
                 raise ValueError("unsupported keyword arguments in call")
+            defined = vars_env.get("_defined_functions")
+            if (
+                fname in _UNTRANSLATED_BUILTINS
+                and isinstance(defined, set)
+                and fname not in defined
+            ):
+                # passing these through verbatim can only end in a C++ compile error
+                raise ValueError(f"{fname}() is not supported")
             args_rendered = ", ".join(emit(arg) for arg in n.args)
             return f"{fname}({args_rendered})"
 
@@ -4260,7 +4280,12 @@ def _parse_simple_lines(
                 continue
             try:
                 expr_c = _to_c_expr(line, vars, ctx)
-            except Exception:
+            except Exception as exc:
+                if any(isinstance(sub, ast.Call) for sub in ast.walk(expr_node)):
+                    # a call is there for its effect: dropping it would change the program
+                    raise ValueError(
+                        f"unsupported statement: {line.strip()}"
+                    ) from exc
                 expr_c = None
                 _verif_note(scope, depth, line, "expr-untranslatable")
             if expr_c is not None:
@@ -4362,6 +4387,9 @@ def _parse_program(src: str) -> Program:
         "potentiometer_pins": {},
     }
     ctx["vars"]["_helpers"] = ctx["helpers"]
+    ctx["vars"]["_defined_functions"] = set(
+        re.findall(r"^[ \t]*def[ \t]+([A-Za-z_]\w*)", src, re.MULTILINE)
+    )
 
     i = 0
     while i < len(lines):
